@@ -123,7 +123,7 @@ def get_type_graph(t: type) -> graphlib.TopologicalSorter[TypeNode]:
         predecessors = []
         for var, child in _level(parent_unwrapped):
             # If no type was provided, there's no reason to do further processing.
-            if child in (constants.empty, typing.Any):
+            if child in (constants.empty, typing.Any, Ellipsis):
                 continue
 
             unwrapped = inspection.unwrap(child)
@@ -137,21 +137,22 @@ def get_type_graph(t: type) -> graphlib.TopologicalSorter[TypeNode]:
             # We detected a cyclic type,
             #   wrap in a ForwardRef and don't add it to the stack
             #   This will terminate this edge to prevent infinite cycles.
-            if is_visited and can_be_cyclic:
-                qualname = inspection.qualname(child)
-                *rest, refname = qualname.split(".", maxsplit=1)
+            if is_visited and can_be_cyclic and inspect.isclass(child):
+                # The qualified name of a class is relative to its module.
+                refname = inspection.qualname(child)
                 is_argument = var is not None
-                module = ".".join(rest) or getattr(child, "__module__", None)
-                if module in (None, "__main__") and rest:
-                    module = rest[0]
-                is_class = inspect.isclass(child)
+                module = getattr(child, "__module__", None)
                 ref = refs.forwardref(
-                    refname, is_argument=is_argument, module=module, is_class=is_class
+                    refname, is_argument=is_argument, module=module, is_class=True
                 )
                 uref = refs.forwardref(
-                    unwrapped, is_argument=is_argument, module=module, is_class=is_class
+                    unwrapped, is_argument=is_argument, module=module, is_class=True
                 )
                 node = TypeNode(ref, uref, var=var, cyclic=True)
+            # Anything else (e.g., a subscripted generic) can't be named by a reference
+            #   without losing its parameters, so we defer the type itself.
+            elif is_visited and can_be_cyclic:
+                node = TypeNode(child, unwrapped, var=var, cyclic=True)
             # Otherwise, add the type to the stack and track that it's been seen.
             else:
                 node = TypeNode(type=child, unwrapped=unwrapped, var=var)
